@@ -57,4 +57,27 @@ mod verif_c14_cache {
         kani::cover!(true);
         std::mem::forget((res, deps, cache, rx));
     }
+
+    // no_record entered through ANOTHER cache (one without a reloader) still suspends the recording of the
+    // asset that is loading: recording is per thread, not per cache
+    // @h name=c14_no_record_through_other_cache tier=quick cap=2 timeout=600 props=C14
+    #[kani::proof]
+    #[kani::unwind(6)]
+    fn c14_no_record_through_other_cache() {
+        let (r, rx) = HotReloader::verif_with_receiver();
+        let cache = AssetCache::verif_new(crate::source::Empty, Some(r));
+        let plain = AssetCache::verif_new(crate::source::Empty, None);
+        let reloader = cache.reloader.as_ref().unwrap();
+        let which: bool = kani::any();
+        let ((), deps) = records::record(reloader, || {
+            let body = || { let _ = Cache::read(&cache, "k", "x"); };
+            if which { plain.no_record(body) } else { plain.as_any_cache().no_record(body) }
+            let _ = Cache::read(&cache, "m", "x"); // recording resumes afterwards
+        });
+        assert!(!deps.verif_contains(&fdep("k", "x")), "a read made inside no_record was recorded");
+        assert!(deps.verif_contains(&fdep("m", "x")), "recording did not resume after no_record");
+        kani::cover!(which);
+        kani::cover!(!which);
+        std::mem::forget((deps, cache, plain, rx));
+    }
 }
